@@ -1462,6 +1462,15 @@ func Run(c *vh.Ctx) {
 			knownStream(c)
 			return
 		}
+		if kd.Kind == "bind" {
+			var b bcase
+			if err := json.Unmarshal(c.ReplayRaw, &b); err != nil || !b.ok() {
+				c.Note("bad replay: %v", err)
+				return
+			}
+			b.judge(c)
+			return
+		}
 		var g gcase
 		if err := json.Unmarshal(c.ReplayRaw, &g); err != nil || !valid(g) {
 			c.Note("bad replay: %v", err)
@@ -1472,7 +1481,12 @@ func Run(c *vh.Ctx) {
 		return
 	}
 	c.Res.Rule = "a case = one history over the catalogue Box<T>, Pair<K,V>, CBox<T> (constructor stores its argument), Swap<A,B> (every class with set<p>($x) and take<k>(T_k $x) methods), run as one script on a fresh VM; every operation is a statement of its own or runs through a shared site (function / closure / method / static method / branch of one dispatcher loop) that the history executes repeatedly; non-trivial = at least two objects of the same generic class created with different type arguments or by two executions of one shared `new` site, and at least one typed write / constructor store / T-parameter call; distinct = distinct operation sequence incl. write form, site of every operation and realisation of the sites"
+	if os.Getenv("C19_ONLY") == "bind" { // development aid
+		bindStream(c)
+		return
+	}
 	knownStream(c)
+	bCases, bCalls := bindStream(c)
 	for _, g := range witnesses() {
 		r.add(g)
 	}
@@ -1504,6 +1518,7 @@ func Run(c *vh.Ctx) {
 		if n4 > 0 {
 			c.Res.ExhaustiveWhat += fmt.Sprintf("; all histories of length <= 4 over Pair<K,V> with K,V in {int,string,U0} (9 instantiations): %d", n4)
 		}
+		c.Res.ExhaustiveWhat += fmt.Sprintf("; position stream: %d generic classes (1..3 type parameters; every parameter list of length <= 4 (<= 3 for 3 type parameters in quick) over {K_k $x, int $x, $x} with at least one type-parameter position; lists over the type parameters followed by a defaulted / variadic last parameter; one promoted position; arguments by name), constructor and method m with the same list, two instantiations each, every argument fine and every position mistyped in turn: %d calls", bCases, bCalls)
 		c.Res.ExhaustiveWhat += fmt.Sprintf("; each of those histories in which a `new` text occurs twice additionally with every operation through a shared re-executed site (%d renderings, realisation rotating over function/closure/method/static method/loop branch)", r.nSited)
 		c.Res.ExhaustiveWhat += fmt.Sprintf("; re-execution families, every history as straight-line statements AND with every operation through a shared site (one site per distinct text), in all 5 realisations up to length k and one rotating realisation beyond: Box<int>|Box<string>|raw Box with p0 <- int|string, read, take0(int|string), length <= %d (k=%d): %d histories; Pair<int,string>|Pair<string,int>|Pair<int,int> with p0|p1 <- int|string, take0|take1(string), length <= %d (k=%d): %d; CBox<int|string>(int|string) (2 `new` sites, value passed in) with p0|p1 <- int|string, length <= %d (k=%d): %d",
 			c.N(4, 5), c.N(3, 4), s1, c.N(3, 4), c.N(2, 3), s2, c.N(3, 4), c.N(3, 3), s3)
